@@ -432,6 +432,27 @@ def execute(oplists, seed, opts, focus, workers=16):
     return merge_batches(results, focus)
 
 
+def repo_fn_calls(files, timeout=300):
+    """Run some of the repository's own test files under the recording plugin and return the calls they made to
+    the pure functions (is_w3c_prefix, is_w3c_curie, discover), with the results the tests saw."""
+    import subprocess
+    import sys
+    src = os.environ.get("CURIES_SRC", "/repo/src")
+    root = os.path.dirname(src)
+    d = tlc.scratch("repofn")
+    out = os.path.join(d, "traces.json")
+    env = dict(os.environ, VERIF_REC_OUT=out, PYTHONPATH=os.path.dirname(os.path.abspath(__file__)) + os.pathsep + src, PYTHONHASHSEED="0")
+    try:
+        p = subprocess.run([sys.executable, "-m", "pytest", "-q", "-p", "no:cacheprovider", "-p", "pytest_record_plugin", "--timeout=600"] + list(files),
+                           cwd=root, env=env, stdout=subprocess.PIPE, stderr=subprocess.STDOUT, text=True, timeout=timeout)
+        if not os.path.exists(out + ".fn.json"):
+            raise MachineryError("the recording plugin produced no function calls\n" + p.stdout[-1500:])
+        with open(out + ".fn.json") as f:
+            return json.load(f)
+    finally:
+        shutil.rmtree(d, ignore_errors=True)
+
+
 def repo_test_traces(focus, timeout=600):
     """Run the repository's own test-suite under the recording plugin (harness/pytest_record_plugin.py)
     and return the recorded batch (one trace per Converter instance the tests created)."""
